@@ -135,13 +135,15 @@ PROPS = {    "C01": {
                    must=["C05.nolaunch/no-step-command-starts-after-stop-accepted", "C05.stop/stopped-run-ends-canceled"]),
             run_ob("C05.repeat", "VerifHarness_RUN_C05_rep", 0, None, None, unwind=12, bq={"N": 2, "repeating_step": "s0 (interval 0)", "iterations": "<= 10 (longer waits for the stop are cut)", "stop": "at quiescent points"},
                    must=["C05.repeat/repeating-step-is-not-signalled", "C05.nolaunch/no-step-command-starts-after-stop-accepted"], extra=["-unwind-cut"]),
+            ag_ob("C05.escalate", "VerifHarness_AG_escalate", ["C05."], ["C05.escalate/stop-completes-only-after-the-process-ended-or-was-force-killed"],
+                  {"steps": 1, "process": "ignores the stop signal, ends on its own at any later point", "stop": "while the process runs"}),
             run_ob("C05.timeout", "VerifHarness_RUN_C05_timeout", 0, None, None, bq={"N": 2, "R": 1, "timeout": "1h on a symbolic clock; expiry at any quiescent point, consistent with the program clock"},
                    must=["C05.timeout/no-step-command-starts-after-the-timeout", "C05.timeout/every-step-is-labelled-when-the-run-ends", "C05.timeout/timed-out-run-ends-canceled"]),
             run_ob("C05.stop-d1", "VerifHarness_RUN_C05_n2", 1, "VerifHarness_RUN_C05_n2h", 1, bq={"N": 2, "R": 1, "stop": "at any yield point"}, bt={"N": 2, "R": 1, "handlers": "every subset"},
                    must=["C05.nolaunch/no-step-command-starts-after-stop-accepted"]),
         ],
         "assumptions": ["every scripted process exits when it receives the stop signal or on its own (processes that ignore the signal: C05.escalate, not built)"] + RUN_ASSUME,
-        "outside_claim": COMMON_OUTSIDE + RUN_OUTSIDE + ["force-kill escalation after MaxCleanUpTime (C05.escalate): not built; the scripted executor honours an expired context the way exec.CommandContext does (refuses to start, terminates a running command)", "a stop racing with a repeating step's next iteration (pre-emption; same window as F5c)"],
+        "outside_claim": COMMON_OUTSIDE + RUN_OUTSIDE + ["the MaxCleanUpTime bound itself (timers are order-only); the scripted executor honours an expired context the way exec.CommandContext does (refuses to start, terminates a running command)", "a stop racing with a repeating step's next iteration (pre-emption; same window as F5c)"],
     },
     "C15": {
         "obligations": [
